@@ -141,6 +141,86 @@ func (s *asch) toSchema() avro.Schema {
 	return sPrim(s.kind)
 }
 
+// fieldPos records where a primitive piece of an encoding sits and what role it plays.
+type fieldPos struct {
+	off, n int
+	role   string // int len count size sel raw
+}
+
+// encodeSpecRec encodes like encodeSpec and records the position and role of every varint.
+func encodeSpecRec(p *plan, s *asch, v *aval) ([]byte, []fieldPos) {
+	var out []byte
+	var rec []fieldPos
+	var enc func(p *plan, s *asch, v *aval)
+	vi := func(x int64, role string) {
+		b := refVarint(x)
+		rec = append(rec, fieldPos{len(out), len(b), role})
+		out = append(out, b...)
+	}
+	enc = func(p *plan, s *asch, v *aval) {
+		switch s.kind {
+		case "null":
+		case "boolean":
+			rec = append(rec, fieldPos{len(out), 1, "raw"})
+			if v.b {
+				out = append(out, 1)
+			} else {
+				out = append(out, 0)
+			}
+		case "int", "long", "enum":
+			vi(v.i, "int")
+		case "float":
+			rec = append(rec, fieldPos{len(out), 4, "raw"})
+			out = append(out, refLE(v.bits, 4)...)
+		case "double":
+			rec = append(rec, fieldPos{len(out), 8, "raw"})
+			out = append(out, refLE(v.bits, 8)...)
+		case "bytes", "string":
+			vi(int64(len(v.bs)), "len")
+			out = append(out, v.bs...)
+		case "fixed":
+			out = append(out, v.bs...)
+		case "record":
+			for i, f := range s.fields {
+				enc(p.subs[i], f, v.vs[i])
+			}
+		case "array", "map":
+			pos := 0
+			for _, b := range p.blocks {
+				if b[1] == 1 {
+					// size prefix: encode the body first to know its size
+					var body []byte
+					for k := pos; k < pos+b[0]; k++ {
+						e := encodeSpec(p.subs[k], s.items, v.vs[k])
+						if s.kind == "map" {
+							e = append(append(refVarint(int64(len(v.keys[k]))), v.keys[k]...), e...)
+						}
+						body = append(body, e...)
+					}
+					vi(-int64(b[0]), "count")
+					vi(int64(len(body)), "size")
+				} else {
+					vi(int64(b[0]), "count")
+				}
+				for k := pos; k < pos+b[0]; k++ {
+					if s.kind == "map" {
+						vi(int64(len(v.keys[k])), "len")
+						out = append(out, v.keys[k]...)
+					}
+					enc(p.subs[k], s.items, v.vs[k])
+				}
+				pos += b[0]
+			}
+			vi(0, "count")
+		case "union":
+			vi(int64(v.idx), "sel")
+			enc(p.subs[0], s.fields[v.idx], v.vs[0])
+		}
+	}
+	enc(p, s, v)
+	return out, rec
+}
+
 // encodeSpec is the harness's own Avro binary encoder (specification section "Binary Encoding").
 func encodeSpec(p *plan, s *asch, v *aval) []byte {
 	switch s.kind {
